@@ -118,6 +118,40 @@ def check(tier, seed):
                 res.violation(f'VALGET response decoding raised {impl[1:]} instead of ValueError',
                               {'property': 'C14', 'input': {'payload_hex': C.hexs(data), 'mode': mode}}, 'c14-valget-exn|' + C.hexs(data)[:60])
             cases.append(Case('valget-response', f'valget {sk} {C.hexs(data)}', impl.rstrip(), {'payload_hex': C.hexs(data), 'mode': mode}, kind='valget/' + mode))
+        from ubxlib.cfgkeys import CfgKeyData as CK_
+        from ubxlib.ubx_cfg_valget import UbxCfgValGet
+        from ubxlib.ubx_cfg_valset import UbxCfgValSetAction
+        # long VALGET responses (more than 64 pairs; a malformed pair late in the payload)
+        for n in (65, 66, 100, 150, 199):
+            pairs = [(0x20110021 + (j << 16) % 0xFF0000, bytes([j & 255])) for j in range(n)]
+            body = b''.join(k.to_bytes(4, 'little') + v for k, v in pairs)
+            for bad in (False, True):
+                data = bytes(4) + body + (b'\x01\x00\x11\x70\x00' if bad else b'')       # size code 7: must be rejected
+                impl = C.guarded(K.impl_valget, data)
+                cases.append(Case('valget-response-long', f'valget {sk} {C.hexs(data)}', impl.rstrip(), {'pairs': n, 'bad_tail_pair': bad, 'payload_hex': C.hexs(data)[:120]}, kind='valget/long'))
+        # VALSET built from item objects that were used before (taken from a decoded VALGET, or from an earlier VALSET) in another order
+        for _ in range(20 if tier == 'quick' else 600):
+            n = rng.randrange(2, 7)
+            raw = [((rng.choice([2, 3, 4]) << 28) | (rng.randrange(256) << 16) | rng.randrange(4096), rng.randrange(200)) for _ in range(n)]
+            body = b''.join(k.to_bytes(4, 'little') + v.to_bytes([0, 1, 1, 2, 4, 8][(k >> 28) & 7], 'little') for k, v in raw)
+            vg = UbxCfgValGet.construct(bytearray(bytes(4) + body))
+            items = [vg.f._fields[f'data{j}'] for j in range(n)]
+            order = list(range(n))
+            rng.shuffle(order)
+            picked = [items[j] for j in order]
+
+            def build(picked=picked):
+                fr = UbxCfgValSetAction(list(picked))
+                if len(picked) > 1:
+                    picked[0].value = (picked[0].value + 1) % 100          # edited through the caller's reference after the frame was built
+                fr.pack()
+                return C.hexs(fr.data)
+            impl = C.guarded(build)
+            toks = [K.item_token(it.group_id, it.item_id, it.bits, it.signed, it.value) for it in picked]
+            cases.append(Case('valset-reused-items', 'valset ' + ' '.join(toks), impl, {'n': n, 'order': order}, kind='valset/reused-items'))
+            again = [picked[j] for j in reversed(range(len(picked)))]
+            impl2 = C.guarded(lambda: (lambda fr: (fr.pack(), C.hexs(fr.data))[1])(UbxCfgValSetAction(list(again))))
+            cases.append(Case('valset-reused-items', 'valset ' + ' '.join(K.item_token(it.group_id, it.item_id, it.bits, it.signed, it.value) for it in again), impl2, {'n': n, 'order': 'reversed-again'}, kind='valset/reused-items'))
         res.compare(cases)
         res.oblige('correspondence CfgKeyData / VALSET / VALGET (Tie A)', not res.disagreements)
         res.oblige('dichotomy oracle on the implementation', not res.violations)
